@@ -17,6 +17,17 @@ class AnalysisError(Exception):
     """The source left the fragment the analyser understands (exit 2)."""
 
 
+class UnboundedRecursion(AnalysisError):
+    """A function outside the table encoders / decoders re-enters itself:
+    there is no inductive summary for it.  Rules whose property is about
+    termination or escaping exceptions report it as a violation."""
+
+    def __init__(self, msg, func_short=None, module_rel=None, line=0):
+        super().__init__(msg)
+        self.func_short = func_short
+        self.site = '%s:%d' % (module_rel, line) if module_rel else None
+
+
 class Binding:
     """One statement that binds a name in a module or class scope."""
     __slots__ = ('kind', 'node', 'value', 'scope', 'name')
